@@ -106,7 +106,9 @@ func c11bin() {
 		}
 		// the update starts 20 ms after the first login; the other logins arrive while the new hash is being computed
 		f := func(pct int) time.Duration { return 20*time.Millisecond + hashT*time.Duration(pct+rng.Intn(15))/100 }
-		fire("sasl", 0, func() string { return agent.saslAuth(u, oldpw) })
+		if r%2 == 1 { // in every other round a login is already being upgraded when the update arrives
+			fire("sasl", 0, func() string { return agent.saslAuth(u, oldpw) })
+		}
 		fire("ldap", f(10), func() string { return agent.ldapBind(u, oldpw) })
 		fire("basic", f(35), func() string { return agent.basicAuth(u, oldpw) })
 		fire("sasl2", f(55), func() string { return agent.saslAuth(u, oldpw) })
